@@ -20,6 +20,7 @@ import (
 
 	"nvharness/lib/c12facts"
 	"nvharness/lib/c12sched"
+	"nvharness/lib/c12stress"
 	"nvharness/lib/c13run"
 	"nvharness/lib/corr"
 	"nvharness/lib/gofacts"
@@ -38,6 +39,8 @@ func main() {
 		extract(os.Args[2], os.Args[3])
 	case "corr":
 		corr.Main(spec(), os.Args[2:])
+	case "stressrun":
+		c12stress.ChildMain(os.Args[2:])
 	default:
 		os.Exit(2)
 	}
@@ -350,6 +353,12 @@ func (r *runner) create(f []string) string {
 // state is restored exactly); the verdict `would-block` is taken from a quiescent goroutine snapshot, never from time.
 func (r *runner) blocking(fn func() string) string {
 	t := r.s.Go("pop", fn)
+	defer func() {
+		if d, res := t.Done(); d && strings.HasPrefix(res, "panic:") {
+			r.hit("Pop", "panic", "a pop call panicked: "+res)
+			r.dead = "panic" // the mutex may be left locked: abandon this queue
+		}
+	}()
 	for i := 0; i < 200; i++ {
 		if d, res := t.Done(); d {
 			return res
@@ -972,6 +981,10 @@ func (r *runner) priLine(f []string) string {
 }
 
 func runCase(c corr.Case) (res corr.Result) {
+	if len(c.Lines) == 1 && strings.HasPrefix(c.Lines[0], "stress ") {
+		out, hits := c12stress.Line("C12", strings.Fields(c.Lines[0]))
+		return corr.Result{Outs: []string{out}, Hits: hits}
+	}
 	if len(c.Lines) > 0 && strings.HasPrefix(c.Lines[0], "cnew ") {
 		// a concurrency script: blocking consumers, bursts, quiescence monitors — the scheduler-driven runner shared
 		// with C13 (its hits are reported under C12 keys)
@@ -1294,19 +1307,21 @@ func fixedCases() []corr.Case {
 	return cs
 }
 
+func baseCount(tier string) int {
+	switch tier {
+	case "quick":
+		return 4200
+	case "thorough":
+		return 60000
+	}
+	return 90000
+}
+
 func spec() corr.Spec {
 	return corr.Spec{
 		Property: "C12",
 		Fixed:    fixedCases,
-		Count: func(tier string) int {
-			switch tier {
-			case "quick":
-				return 4200
-			case "thorough":
-				return 60000
-			}
-			return 90000
-		},
+		Count:    func(tier string) int { return baseCount(tier) + len(c12stress.Cases(tier, true)) },
 		Shards: func(tier string) int {
 			if tier == "quick" {
 				return 4
@@ -1314,6 +1329,9 @@ func spec() corr.Spec {
 			return 12
 		},
 		Gen: func(r *rng.R, tier string, i int) corr.Case {
+			if i >= baseCount(tier) { // the parallel stress class (child processes)
+				return c12stress.Cases(tier, true)[i-baseCount(tier)]
+			}
 			kind := kinds[i%len(kinds)]
 			switch k := r.Intn(20); {
 			case k == 0:
